@@ -121,9 +121,26 @@ mut('eintr_not_retried_on_write', 'break', ['C16'], FF,
         }
 ''', 'hand-rolled loop that does not retry EINTR: a benign interrupt fails the file')
 mut('bom_sniff_after_config', 'break', ['C17'], FF,
-    '        let (encoding, (bom, contents)) = match Encoding::for_bom(buf) {\n            Some((encoding, bom_length)) => {',
-    '        let (encoding, (bom, contents)) = match Encoding::for_bom(buf) {\n            Some((encoding, bom_length)) if encoding == self.encoding || self.encoding == encoding_rs::UTF_8 => {', 'a BOM only wins when the configured encoding is UTF-8 or agrees')
-
+    '''            Some((encoding, bom_length)) => {
+                (encoding, (Some(&buf[..bom_length]), &buf[bom_length..]))
+            }
+            None => (self.encoding, (None, &buf[..])),''',
+    '''            Some((encoding, bom_length))
+                if encoding == self.encoding || self.encoding == encoding_rs::UTF_8 =>
+            {
+                (encoding, (Some(&buf[..bom_length]), &buf[bom_length..]))
+            }
+            _ => (self.encoding, (None, &buf[..])),''', 'a BOM only wins when the configured encoding is UTF-8 or agrees')
+mut('dir_walk_uppercase_ext_skipped', 'break', ['C18'], FF,
+    '''            ext.eq_ignore_ascii_case("pas")''', '''            ext == "pas"''', 'a directory walk silently skips .PAS files: the batch no longer formats what each file gets alone (needs the directory path form and an upper-case extension)')
+mut('stdout_mode_writes_back', 'break', ['C16'], FF,
+    '''            OpenOptions::new(),
+            |_, file_path, _, formatted_output| {''',
+    '''            OpenOptions::new().write(true).to_owned(),
+            |file, file_path, decoded, formatted_output| {
+                if decoded.bom.is_some() && decoded.contents.len() > formatted_output.len() {
+                    let _ = file.set_len(0);
+                }''', 'stdout mode truncates BOM files whose result is shorter')
 # ---- behaviour-preserving edits (must stay silent)
 mut('p_always_rewrite', 'preserve', ['C16', 'C17', 'C18'], FF,
     '                if decoded_file.contents.eq(&formatted_output) {\n', '                if false && decoded_file.contents.eq(&formatted_output) {\n', 'rewrites unchanged files with identical bytes')
